@@ -122,6 +122,45 @@ func NewEngine(repo string, patterns []string, specPaths []string) (*Engine, err
 		}
 		e.specFiles = append(e.specFiles, parts[1])
 	}
+	// A closure may be named by the variable it is assigned to
+	// (parent$set instead of parent$2): ordinals shift when an unrelated
+	// closure is added to the function, variable names do not.
+	alias := map[string]string{}
+	for k, fn := range e.fnByName {
+		for _, b := range fn.Blocks {
+			for _, in := range b.Instrs {
+				d, ok := in.(*ssa.DebugRef)
+				if !ok || d.IsAddr || d.Object() == nil {
+					continue
+				}
+				switch x := d.X.(type) {
+				case *ssa.MakeClosure:
+					if cf, ok := x.Fn.(*ssa.Function); ok {
+						alias[k+"$"+d.Object().Name()] = fnKey(cf)
+					}
+				case *ssa.Function:
+					// a function literal that captures nothing
+					if x.Parent() == fn {
+						alias[k+"$"+d.Object().Name()] = fnKey(x)
+					}
+				}
+			}
+		}
+	}
+	for ak, ck := range alias {
+		if fs, ok := e.spec.Funcs[ak]; ok {
+			if _, clash := e.spec.Funcs[ck]; clash {
+				return nil, fmt.Errorf("contracts for both %s and %s (the same closure)", ak, ck)
+			}
+			delete(e.spec.Funcs, ak)
+			e.spec.Funcs[ck] = fs
+			for i, o := range e.spec.Order {
+				if o == ak {
+					e.spec.Order[i] = ck
+				}
+			}
+		}
+	}
 	for _, s := range e.spec.Specs {
 		if _, dup := e.specFns[s.Name]; dup {
 			return nil, fmt.Errorf("%s:%d: duplicate spec function %s", s.File, s.Line, s.Name)
